@@ -1,0 +1,30 @@
+//go:build verif
+// +build verif
+
+// Package c19 re-exports what the C19 harness needs from internal/plumbing and internal/core.
+package c19
+
+import (
+	"gopkg.in/src-d/hercules.v10/internal/core"
+	"gopkg.in/src-d/hercules.v10/internal/plumbing"
+)
+
+// TicksSinceStart is plumbing.TicksSinceStart.
+type TicksSinceStart = plumbing.TicksSinceStart
+
+// PipelineItem is core.PipelineItem.
+type PipelineItem = core.PipelineItem
+
+// FloorTime is plumbing.FloorTime.
+var FloorTime = plumbing.FloorTime
+
+// Names of dependencies, facts and options.
+const (
+	DependencyTick                = plumbing.DependencyTick
+	FactCommitsByTick             = plumbing.FactCommitsByTick
+	FactTickSize                  = plumbing.FactTickSize
+	ConfigTicksSinceStartTickSize = plumbing.ConfigTicksSinceStartTickSize
+	DependencyCommit              = core.DependencyCommit
+	DependencyIndex               = core.DependencyIndex
+	DependencyIsMerge             = core.DependencyIsMerge
+)
